@@ -126,6 +126,7 @@ type Engine struct {
 	sumFns        map[string]string
 	sortPerms     []sortPerm
 	callArgTypes  map[string]types.Type
+	freshResultsAlias bool // true while creating the symbolic inputs of the function under verification
 	anc           map[int]map[int]bool // top-level function: block -> blocks that can reach it (forward edges)
 	allocRefs     map[string]bool
 	allocBase     map[string]string
